@@ -67,6 +67,15 @@ class Sym:
         self.c = 0             # how many elements of s0 have been consumed
         self.delta = 0         # net depth change so far
         self.mind = 0          # minimum net change so far (<= 0): zeros padded = max(0, 16 - len - mind)
+        self.defs = []         # (name, Felt-typed spec term): long terms are named once and shared (no blow-up
+                               # when a carry feeds both the next sum and the next carry)
+
+    def share(self):
+        for i, t in enumerate(self.top):
+            if len(t) > 70 and not re.fullmatch(r't\d+', t):
+                name = 't%d' % (len(self.defs) + 1)
+                self.defs.append((name, t))
+                self.top[i] = name
 
     @staticmethod
     def s0at(i):
@@ -291,7 +300,8 @@ class Gen:
         if self.sym is not None:
             prev_form = self.sym.form()
             self.sym.step(name, imm, self.advn)
-            self.forms.append((ns, self.sym.form(), prev_form, s, op))
+            self.sym.share()
+            self.forms.append((ns, self.sym.form(), prev_form, s, op, len(self.sym.defs)))
         if name in OPS_PURE:
             self.lines.append('let %s = %s;' % (ns, OPS_PURE[name].format(s=s)))
             return (ns, ok, pre, k)
@@ -398,6 +408,8 @@ def generate(specfile, repo, verif):
         lines.append('{')
         for lem in sorted(getattr(g, 'lemmas_used', set())):
             lines.append('    broadcast use %s;' % lem)
+        for h in e.get('hide', []):
+            lines.append('    hide(%s);' % h)
         step_lemmas = []
         if e.get('chain_in_body'):
             forms = {f[0]: f for f in g.forms}
@@ -406,29 +418,39 @@ def generate(specfile, repo, verif):
                 for fn_ in sorted(set(re.findall(r'\bsem_\w+', ' '.join(g.lines)))):
                     lines.append('    hide(%s);' % fn_)
                 lines.append('    assert(s0 =~= %s);' % Sym().form())
+            ndef = 0
+            alldefs = g.sym.defs if g.sym is not None else []
             for ln in g.lines:
                 lines.append('    ' + ln)
                 mm = re.match(r'let (s\d+) = ([^;]*);', ln)
                 if mm and mm.group(1) in forms:
-                    ns_, form, prev_form, prev_name, op_ = forms[mm.group(1)]
+                    ns_, form, prev_form, prev_name, op_, nd_ = forms[mm.group(1)]
+                    while ndef < nd_:
+                        lines.append('    let %s = %s;' % alldefs[ndef])
+                        mfe = re.fullmatch(r'fe\((.*)\)', alldefs[ndef][1])
+                        if mfe and e.get('val_facts'):
+                            # value-level fact for the shared term (true iff the inner integer is a canonical
+                            # field element): gives the final arithmetic goal plain integers to work with
+                            lines.append('    assert(%s.val() == (%s));' % (alldefs[ndef][0], mfe.group(1)))
+                        ndef += 1
                     sem_on_prev = re.sub(r'\b%s\b' % prev_name, '(' + prev_form + ')', mm.group(2))
                     ln_name = 'step_%s_%s' % (ident, ns_)
-                    step_lemmas.append((ln_name, op_, sem_on_prev, form))
+                    step_lemmas.append((ln_name, op_, sem_on_prev, form, ''.join('let %s = %s; ' % d for d in alldefs[:nd_])))
                     lines.append('    %s(s0, adv);' % ln_name)
                     lines.append('    assert(%s == %s);' % (ns_, form))
             lines.append('    let r = %s; let ok = %s; let pre_ok = %s;' % (st[0], st[1], st[2]))
         for h in e.get('hints', []):
             lines.append('    ' + h)
         lines.append('}')
-        for ln_name, op_, sem_on_prev, form in step_lemmas:
+        for ln_name, op_, sem_on_prev, form, lets_ in step_lemmas:
             lines.append('// one step (%s) of %s on the normal form' % (op_, name))
             lines.append('pub proof fn %s(s0: Seq<Felt>, adv: Seq<Felt>)' % ln_name)
             # the step lemmas are about stack shapes only: they need the depth and (where advice values
             # appear in the forms) the advice length the main lemma requires
             advp = [q for q in e.get('pre', []) if q.startswith('adv.len()')]
             lines.append('    requires s0.len() >= 16,' + ''.join(' %s,' % q for q in advp))
-            lines.append('    ensures %s == %s' % (sem_on_prev, form))
-            lines.append('{ assert(%s =~= %s); }' % (sem_on_prev, form))
+            lines.append('    ensures ({ %s%s == %s })' % (lets_, sem_on_prev, form))
+            lines.append('{ %sassert(%s =~= %s); }' % (lets_, sem_on_prev, form))
         index.append((name, len(out), len(lines)))
         info.append({'lemma': name, 'ops': g.nops, 'mast': d[2][:200], 'root_hash': d[1]})
         out.extend(lines)
